@@ -102,6 +102,13 @@ def gen_cases(rng, tier):
                     for d in (1, win // 2, win - 1, win + 1, win + 5000):
                         tag2 = "b" if (kind == "inv" and code == 200 and d % 2 == 1) else "a"
                         cases.append(_case("dup%d" % n, kind, rel, [(t, code, "a"), (t + d, code, tag2), (t + d + 3, code, "a")])); n += 1
+    # a first send that takes time (connection set-up): the schedule and the 64*T1 deadline count from its completion
+    for kind in ("ni", "inv"):
+        for rel in (0, 1):
+            for lat in (700, 3000):
+                c = _case("lat-%s-%d-%d" % (kind, rel, lat), kind, rel, [])
+                c[7] = ""
+                cases.append(c + ["", str(lat)])
     # random mixes (correspondence only)
     nmix = 150 if tier == "quick" else 4000
     for i in range(nmix):
@@ -115,7 +122,19 @@ def gen_cases(rng, tier):
     return cases
 
 
+def _shift(case, s):
+    """cases whose first send takes `lat` virtual ms: the transaction's timers count from the completed first send, so
+    every observed instant is taken relative to it"""
+    lat = int(case[9]) if len(case) > 9 and case[9] else 0
+    if not lat:
+        return s
+    head, sep, rest = s.partition("\t")
+    head = re.sub(r"@(\d+)", lambda m: "@%d" % (int(m.group(1)) - lat), head)
+    return head + sep + rest
+
+
 def normalize_impl(case, s):
+    s = _shift(case, s)
     s = re.sub(r"\s*tsx=\d+", "", s.split("\t")[0])
     s = re.sub(r"\s*N@\d+:\d+", "", s)
     return s.strip()
@@ -166,6 +185,7 @@ def oracle(case, impl):
         return ["panic: " + impl[:300]]
     if case[0].startswith("mix"):
         return []
+    impl = _shift(case, impl)
     kind, rel, arrs, horizon = _parse(case)
     toks = impl.split("\t")[0].split()
     tsx = None
